@@ -118,13 +118,24 @@ def tdvp_case(ctx, idx, rng):
         ctx.close('trace.local-steps-unitary', max(abs(a - b) for _, a, b in bond), TOL * 10, 'a local (site or bond) step changed the norm of its tensor', detail)
     if not two:
         ctx.ok('singlesite.bond-dims-never-grow', all(a <= b for a, b in zip(psi.bond_dims, D_in)), f'bond dims {D_in} -> {psi.bond_dims}', detail)
-    # scale invariance: the integrators evolve the normalised input; rescaling changes only the return value
+    # scale invariance: the integrators evolve the normalised input; rescaling changes only the return value.
+    # The evolved state is a well-defined function of the input only at regular points of the manifold (every bond carries its full
+    # Schmidt rank); on rank-deficient bonds the result depends on rounding-level singular vectors (cf. the C09 finding), so only the
+    # return value is compared there.
+    d_ = len(H.qd)
+    pr = copy.deepcopy(psi_copy)
+    pr.orthonormalize('right')
+    ranks = [1] + [int(np.sum(np.linalg.svd(v_in.reshape(d_ ** c_, -1), compute_uv=False) > 1e-10 * n_in)) for c_ in range(1, L)] + [1]
+    regular = ranks == list(pr.bond_dims)
     c = float(rng.choice([0.5, 3.0]))
     psi2 = psi_copy
     psi2.A[int(rng.integers(0, L))] *= c
     ret2 = fn(H, psi2, dt, nsteps, numiter_lanczos=numiter)
     ctx.close('scale-invariance.return', abs(float(ret2) - c * n_in), TOL * c * n_in, 'return value does not scale with the input norm', detail)
-    if refs.mps_invariant(psi2) is None:
+    if not regular:
+        ctx.skip('scale-invariance.state')
+        ctx.event('rank_deficient_start')
+    elif refs.mps_invariant(psi2) is None:
         ctx.close('scale-invariance.state', np.linalg.norm(refs.dense_state(psi2.A) - v_out), 1e-9, 'evolved state depends on the norm of the input', detail)
     # repeated call on the same (already evolved) state: returns 1, keeps conserving
     if idx % 4 == 0:
